@@ -178,9 +178,13 @@ def real_recipes(ctx):
     return out + ext
 
 
-def judge_cases(ctx, cases, tag, cap=8):
+def judge_cases(ctx, cases, tag, cap=8, chunk=4000):
     seen = {}
-    for v in sorted(ctx.judge("J_GridTopology", cases, CLAUSES, tag=tag, workers=8), key=lambda v: (v["clause"], v["case"])):
+    verdicts = []
+    for k in range(0, len(cases), chunk):  # bounded batches keep TLC's memory for the case file small
+        for v in ctx.judge("J_GridTopology", cases[k:k + chunk], CLAUSES, tag=f"{tag}{k // chunk}", workers=8):
+            verdicts.append(dict(clause=v["clause"], case=v["case"] + k))
+    for v in sorted(verdicts, key=lambda v: (v["clause"], v["case"])):
         case = cases[v["case"] - 1]
         if v["clause"] in MACHINERY:
             raise RuntimeError(f"case outside the family handed to the judge: {case['src']}")
@@ -207,7 +211,7 @@ def run(ctx):
     else:
         boxes = {("chain", 1, 1), ("chain", 3, 1), ("chain", 6, 1), ("quad", 2, 2), ("quad", 3, 2), ("quad", 4, 2),
                  ("quad", 3, 3), ("tri", 2, 1), ("tri", 2, 2), ("tri", 4, 1), ("tri", 3, 1)}
-        consts = dict(Boxes=boxes, MaskBits=3, SplitChoices={-1, 0, 1, 2}, MaxCells=8)
+        consts = dict(Boxes=boxes, MaskBits=2, SplitChoices={-1, 0, 1, 2}, MaxCells=8)
     res = ctx.tlc(*tlc.gen(ctx.work / "enum", "MC_GridComplexes", "GridComplexes", consts,
                            invariants=["Laws", "Emit"]), allow_violation=False, workers=8)
     ctx.extra["enumerated_complexes"] = len(res.records)
